@@ -61,10 +61,15 @@ def template_pieces(b):
 class Emission:
     """symbol extraction for one fmt body"""
 
-    def __init__(self, prog, fn, self_adt):
+    def __init__(self, prog, fn, self_adt, param_roles=None, depth=0):
         self.prog = prog
         self.fn = fn
         self.self_adt = self_adt
+        # role path (from the printed value) of each parameter: {1: ()} for a Display::fmt body; for a printing helper with loops that
+        # is analysed as a sub-automaton, the paths of the arguments it was called with
+        self.param_roles = param_roles if param_roles is not None else {1: ()}
+        self.depth = depth
+        self.subs = []
         others = [n for n, b in prog.bodies.items() if n != fn and b.get('impl') and b['impl']['trait_def'].endswith('fmt::Display') and n.endswith('::fmt')
                   and (n.startswith('unic_langid_impl::') or n.startswith('unic_locale_impl::'))]
         self.opaque = set(others)
@@ -98,7 +103,7 @@ class Emission:
         if k in ('ref', 'cref', 'init', 'P', 'optref'):
             return self.role_of(st, v[1], depth + 1)
         if k == 'param':
-            return () if v[1] == 1 else None
+            return self.param_roles.get(v[1])
         if k == 'pure' and v[1].split('::')[-1] in ('deref', 'as_str', 'as_ref', 'borrow', 'as_deref', 'clone') and len(v[2]) == 1:
             return self.role_of(st, v[2][0], depth + 1)
         if k in ('F', 'fld'):
@@ -290,6 +295,25 @@ class Emission:
                     out.append(('ALT', ((0x75, 0x6E, 0x64), ('<%s>' % nm,))))
                 else:
                     out.append('<%s>' % nm)
+            elif name in self.prog.bodies and self.prog.has_loops(name) and self.depth < 3 \
+                    and any('fmt::Formatter' in t for t in (self.prog.bodies[name].get('sig') or {}).get('inputs', [])):
+                # a repository helper with loops that receives the formatter: its emission automaton is embedded at this point
+                roles = {}
+                for i, a in enumerate(args):
+                    r = self.role_of(s.state, a)
+                    if r is not None:
+                        roles[i + 1] = r
+                try:
+                    sub = Emission(self.prog, name, self.self_adt, param_roles=roles, depth=self.depth + 1)
+                except pxm.Limit as ex:
+                    self.problems.append('printing helper %s: %s' % (name.split('::')[-1], ex))
+                    return None
+                res = segment_nfa(sub)
+                if res is None or res[1]:
+                    self.problems.append('printing helper %s: %s' % (name.split('::')[-1], (res[1][0] if res else 'no entry segment')))
+                    return None
+                self.subs.append(sub)
+                out.append(('SUB', res[0], name))
             elif re.search(r'iter::Iterator::try_for_each$|as std::iter::Iterator>::try_for_each$', name) and len(args) == 2:
                 star = self.star_of(s, args[0], args[1])
                 if star is None:
@@ -343,6 +367,44 @@ class Emission:
         return out
 
 
+def is_err_ret(s):
+    return s.kind == 'return' and s.ret is not None and s.ret[0] == 'adt' and s.ret[2] == 'Err'
+
+
+def segment_nfa(em):
+    """NFA over the segments that can lead to an Ok return; -> (nfa, problems)"""
+    n = NFA()
+    ids = {}
+
+    def node(x):
+        if x not in ids:
+            ids[x] = n.new() if ids else n.start
+        return ids[x]
+    entry = None
+    for s in em.segs:
+        if s.src[0] == 'entry':
+            entry = s.src
+    if entry is None:
+        return None
+    node(entry)
+    bad = []
+    for s in em.segs:
+        if s.kind == 'panic' or is_err_ret(s) or s.kind == 'unreachable':
+            continue
+        sy = em.symbols(s)
+        if sy is None:
+            bad.append(em.problems[-1] if em.problems else 'segment not understood')
+            continue
+        a = node(s.src)
+        if s.kind == 'return':
+            b = node(('return',))
+        else:
+            b = node(s.dst)
+        n.chain(a, sy, b)
+    n.accept = {node(('return',))}
+    return n, bad
+
+
 # ---------------------------------------------------------------------------------------------------------------
 # tiny regex -> NFA, NFA determinisation, language equality
 
@@ -371,6 +433,20 @@ class NFA:
             if isinstance(sy, tuple) and sy and sy[0] == 'ALT':
                 for alt in sy[1]:
                     self.chain(cur, list(alt), nxt)
+            elif isinstance(sy, tuple) and sy and sy[0] == 'SUB':
+                sub = sy[1]
+                m = {}
+                for q in range(sub.n):
+                    m[q] = self.new()
+                for q, ts in sub.eps.items():
+                    for t in ts:
+                        self.add(m[q], None, m[t])
+                for (q, sym), ts in sub.tr.items():
+                    for t in ts:
+                        self.add(m[q], sym, m[t])
+                self.add(cur, None, m[sub.start])
+                for q in sub.accept:
+                    self.add(m[q], None, nxt)
             elif isinstance(sy, tuple) and sy and sy[0] == 'STAR':
                 m = self.new()
                 self.add(cur, None, m)
@@ -481,6 +557,8 @@ def show(word):
             out += '(' + '|'.join(show(a) for a in s[1]) + ')'
         elif isinstance(s, tuple) and s and s[0] == 'STAR':
             out += '(' + '|'.join(show(a) for a in s[1]) + ')*'
+        elif isinstance(s, tuple) and s and s[0] == 'SUB':
+            out += '{%s}' % s[2].split('::')[-1]
         else:
             out += str(s)
     return out
